@@ -252,6 +252,7 @@ def run(tier, repo=None, tag="repo"):
             m4.bad("I0", "unrecognised", "C01-invariants", "UNRECOGNISED idiom while establishing the window invariants: %r" % (e,))
         run_units("C13", ["MoneyFlowIndex", "CommodityChannelIndex"], None, rep, F, lambda kind: "X4")
         x3_lemma(F, S, m4.bad_keys)
+        rules_c01.reset_premise(F, rep, "X4", ["SimpleMovingAverage", "WeightedMovingAverage", "StandardDeviation", "BollingerBands", "MeanAbsoluteDeviation", "CommodityChannelIndex", "MoneyFlowIndex", "Minimum", "Maximum"])
         n = x5_precision(F, S)
         rep.functions.update(f.path for s in ANCHORS for f in F.fns_of(s))
     rep.configs = configs
